@@ -20,6 +20,12 @@ compiled task two references share a key exactly when they are called with the s
 variable values (including values that only reach `env:` or a sub-call's `vars:`), and
 `C06Key.hash_reaches_all` ties that hypothesis to `hash.go` / `internal/hash` /
 `taskfile/ast` through the regenerated `Gen.HashFields`.
+
+Which statements say what (audit, session 3).  `C06_exec_only_by_register` restates the guards of `register` /
+`waiter`.  Trace-level: `C06_once_key(_trace)`, `C06_one_body_per_key`, `C06_at_most_one_body`, `C06_always`,
+`C06_waiters_observe_outcome`.  WHICH key a reference gets is not constrained by the acceptor at all:
+`C06_key_discipline` / `C06_key_owner` give the meaning of the monitor `keyMon` (verdict `C06k`) evaluated on every
+log, and `Props.C06Key` proves the shape of the key function.
 -/
 namespace Props.C06
 open TaskModel.Sched
